@@ -341,6 +341,8 @@ void TreeGraphImpl<GraphImpl>::rootAt(Graph::NodeId newRoot)
 {
   if (!isValid())
     throw Exception("TreeGraphImpl::rootAt: Tree is not Valid.");
+  // checked before anything is modified (an unrooted tree was left directed otherwise)
+  GraphImpl::nodeMustExist_(newRoot, "new root");
 
   const bool wasRooted = isRooted();
   GraphImpl::makeDirected();
